@@ -68,6 +68,15 @@ def generate(rng, tier, stats):
                                                        "strategy": {"maxUnavailable": rng.choice([msf + 1, msf + 2, 4, "50%"]), "maxPodSchedulerFailure": msf},
                                                        "annotations": {}}))
         wprop.bump(stats, "more stuck nodes than the tolerance", "maxPodSchedulerFailure %d" % msf)
+    # outdated pods deleted by an earlier sync and still Ready inside their grace period, next to available outdated pods and a
+    # small budget: a terminating pod is not available - its node counts against the budget (ninth round)
+    for _ in range(16 if tier == "quick" else 200):
+        nn = rng.choice([6, 8, 10])
+        out.append(worldgen.gen_ers_world(rng, stats, {"scenario": "active", "n": nn, "open_gates": True, "no_faults": True,
+                                                       "classes": ["old_ready"] * 5 + ["old_terminating"] * 3,
+                                                       "strategy": {"maxUnavailable": rng.choice([1, 2, 3, "25%"]), "maxPodSchedulerFailure": 0},
+                                                       "annotations": {}}))
+        wprop.bump(stats, "directed", "terminating outdated pods next to available ones")
     return out
 
 
